@@ -220,6 +220,10 @@ Proof.
   - unfold update_pt. destruct (find _ (ptview c)); [|apply ids_step_refl]. destruct (_ || _); [apply ids_step_refl|].
     destruct (nth_error _ _); [|apply ids_step_refl]. destruct (negb _); [apply ids_step_refl|]. destruct (_ && _); [apply ids_step_refl|].
     cbn [fst ok]. apply ids_step_same. intros k. destruct k; reflexivity.
+  - (* restore: identifiers are untouched whatever happens to the instants *)
+    cbn [fst ok]. apply ids_step_pols; [|reflexivity]. unfold restore_state. cbn [pols set_pols]. apply Forall2_map_r.
+    intros p k. destruct k; cbn [pol_ids]; unfold sh_ids_of, ix_ids_of; cbn [rp_sgs rp_igs rp_msts pol_set_sgs pol_set_igs];
+      rewrite ?map_map, ?flat_map_concat_map, ?map_map; cbn [sg_id ig_id restore_sg restore_ig sg_shards ig_indexes]; apply subl_refl.
 Qed.
 
 (* ---- runs ---- *)
@@ -231,7 +235,7 @@ Proof.
   - (* a negative PtNumPerNode never raises the partition count; the other counters do not depend on it *)
     destruct x; cbn [apply];
       unfold create_db, mark_db, drop_db, create_rp, update_rp, mark_rp, drop_rp, set_default_rp, create_mst, mark_mst, drop_mst,
-        create_sg, delete_sg, prune_sg, delete_ig, prune_ig, create_node, create_ptview, update_pt, ok, err, add_mst, set_default, upd_pol, upd_db;
+        create_sg, delete_sg, prune_sg, delete_ig, prune_ig, create_node, create_ptview, update_pt, ok, err, add_mst, set_default, upd_pol, upd_db, restore_state;
       repeat match goal with
              | |- context [match ?e with _ => _ end] => destruct e eqn:?; cbn [fst snd]
              | |- context [if ?e then _ else _] => destruct e eqn:?; cbn [fst snd]
